@@ -912,3 +912,9 @@ mod tests {
 		assert!(res.is_none());
 	}
 }
+
+// verification hook (DESIGN.md of /verif): harnesses live outside the repository and are compiled only under cfg(kani) / cfg(ldk_verif)
+#[cfg(any(kani, ldk_verif))]
+#[allow(missing_docs, dead_code, unused_imports, unused_variables)]
+#[path = "/verif/hooks/wire.rs"]
+pub mod verif_contracts;
